@@ -14,8 +14,8 @@ The theorems live in `VrpProofs/C17/{Lkh,Dbscan,KMed}.lean`; this file collects 
 * DBSCAN: `clusters_pairwise_disjoint`, `cluster_seed_is_core`, `members_density_reachable`,
   `no_core_unclustered`, `fuel_sufficient`, `model_meets_spec`, `specReachable_sound`.
 * k-medoids: `result_is_partition`, `nearest_own_medoid`, `keys_are_medoids`, `key_in_own_cluster`,
-  `calculate_no_panic`, `kmedoids_meets_spec`; hierarchy: `hier_contract`, `createHier_contract`,
-  `childOk_refines`, `splitOk_of_createKMedoids`.
+  `at_most_k_clusters`, `calculate_no_panic`, `kmedoids_meets_spec`; hierarchy: `hierStep_eq`, `hier_contract`,
+  `createHier_contract`, `childOk_refines`, `createHier_meets_spec`, `splitOk_of_createKMedoids`.
 -/
 namespace C17
 
